@@ -23,8 +23,8 @@
         an argument, so there is nothing they could modify; the only state shared with later calls is
         the allocator, whose ledger is the subject of the statements above.  (global_error is the
         parser's only other global; its value after the call is characterised in C10.)
-    The tree-API scenarios (create, add helpers, references, duplicate, replace by key, set
-    valuestring, bulk constructors) are at the end of the file. *)
+    The tree-API scenarios (create, references, duplicate, replace by key, set valuestring, bulk
+    constructors, cJSON_AddItemToObject) are at the end of the file (section "tree API"). *)
 From CJ Require Import Base Dbl Tree LibcNum LibcPrint ParseDefs ParseSafe ParseEntry PrintDefs PrintProofs
   PrintFail PrintFailExt PrintFailParse PrintFailParseExt.
 Local Open Scope Z_scope.
@@ -324,3 +324,604 @@ Theorem C08_A_violates_ledger :
   = Ok (mkprr None 1 3).
 Proof. exact C08_A_violates_ledger_proof. Qed.
 Print Assumptions C08_A_violates_ledger.
+
+(** ------------------------------------------------------------------ tree API *)
+(** The tree-API scenarios of the property, proved by the core agents on the heap model (Heap.v / CoreDefs.v) in
+    CoreRefineCreate.v, CoreRefineSet.v, CoreRefineRef.v, CoreRefineArray.v, CoreRefineAddObject.v,
+    CoreRefineReplaceKey.v and CoreRefineDup*.v, re-exported verbatim (the statements are the kernel's printing of
+    the lemmas' types; one theorem per scenario family, a conjunction with the lemma's name in front of each
+    conjunct, so that the assumptions of a whole family are listed by one command).  Every statement is for an
+    ARBITRARY oracle and has two branches: the normal postcondition of C06/C11 ([WF] of the heap for the forest
+    the list model predicts), or the failure value in a heap [h'] with [clean_failure h h'] (resp. for
+    cJSON_Duplicate: equal link / data / string maps, live set and ledger) and a refused request.
+    [C08_clean_failure_means] says what a clean failure implies for EVERY pre-existing forest: it is still encoded by
+    the heap (so it prints the same text, by C04/C05 on the decoded tree), no block of it was released, the ledger of
+    library blocks is unchanged, [NoLeak] is preserved, and the heap satisfies the preconditions of every further
+    call ("the library remains usable").
+    Standing hypotheses: [WF h F] (the heap encodes the forest F of all live trees), [live_below h] (every live
+    block identity is below the allocator's next identity; holds in [empty_heap] and is re-established by every
+    lemma), for cJSON_Duplicate [Closed h], and readability of the string arguments.
+    Coverage of the property's scenario list: create* (all constructors), add reference to array / object,
+    duplicate, replace by key, set valuestring, bulk array constructors, cJSON_AddItemToObject[CS] are covered below;
+    the cJSON_Add<Type>ToObject helpers (cJSON_AddNullToObject ... cJSON_AddArrayToObject: constructor, then
+    add_item_to_object, then cJSON_Delete of the new item when the insertion fails) have no composed theorem yet —
+    their two halves are in C08_constructors / C08_string_constructors and C08_object_keys. *)
+From CJ Require Import Heap Forest ForestLemmas CoreSpec CoreDefs CoreRefineBase CoreRefine
+  CoreRefineDelete CoreRefineReplace CoreRefineMore CoreRefineFrame CoreRefineHistory CoreRefineObject CoreRefineByKey
+  CoreRefineAddObject CoreRefineReplaceKey CoreRefineCreate CoreRefineSet CoreRefineRef CoreRefineArray CoreRefineCreateEx
+  CoreRefineDupBase CoreRefineDupTree CoreRefineDupNode CoreRefineDupLoop CoreRefineDup CoreRefineDupForest CoreRefineDupLimit
+  CoreRefineDupUnroll.
+From stdpp Require Import gmap.
+
+(* what a clean failure means (CoreRefineCreate.clean_failure: link and data maps equal, live set equal, strings and
+   ownership tags of the old identities equal; only the allocator's counters and trace moved): every pre-existing
+   forest is still encoded (it prints the same text), the ledger of library blocks is as before, nothing leaked *)
+Theorem C08_clean_failure_means :
+  ∀ (h h' : heap) (F : forest),
+    WF h F
+    → live_below h
+      → clean_failure h h'
+        → WF h' F
+          ∧ lib_live h' = lib_live h
+            ∧ h_live h' = h_live h
+              ∧ h_lnk h' = h_lnk h
+                ∧ h_dat h' = h_dat h
+                  ∧ (∀ b : positive, b ∈ h_live h → h_str h' !! b = h_str h !! b)
+                    ∧ live_below h' ∧ (NoLeak h F → NoLeak h' F).
+Proof. exact clean_failure_summary. Qed.
+Print Assumptions C08_clean_failure_means.
+
+(* cJSON_strdup, and the constructors with one request:  ctor1_post oracle m h F d  :=
+        oracle (h_req h) = false /\ m h = Ret (Some (h_next h), new_node h d) /\ WF (new_node h d) (spec_create F (h_next h) d)
+          /\ live_below (new_node h d) /\ (NoLeak h F -> NoLeak (new_node h d) (spec_create F (h_next h) d))
+     \/ oracle (h_req h) = true /\ m h = Ret (None, bump h) /\ clean_failure h (bump h) /\ refused oracle h (bump h)
+   with  refused oracle h h' := exists k, h_req h <= k < h_req h' /\ oracle k = true  *)
+Theorem C08_constructors :
+  (* cJSON_strdup_sim *)
+  ( ∀ (oracle : nat → bool) (h : heap) (F : forest) (sb : positive),
+      WF h F
+      → live_below h
+        → Readable h sb
+          → oracle (h_req h) = false
+            ∧ (let h' := new_str h (str_at h sb ++ [0%Z]) in
+               cJSON_strdup oracle (Some sb) h = Ret (Some (h_next h), h')
+               ∧ WF h' F
+                 ∧ live_below h'
+                   ∧ Readable h' (h_next h)
+                     ∧ str_at h' (h_next h) = str_at h sb ∧ h_own h' !! h_next h = Some Lib ∧ h_next h ∉ owned F)
+            ∨ cJSON_strdup oracle (Some sb) h = Ret (None, bump h)
+              ∧ clean_failure h (bump h) ∧ refused oracle h (bump h) )
+  ∧
+  (* create_with_type_sim *)
+  ( ∀ (oracle : nat → bool) (ty : Z) (h : heap) (F : forest),
+      WF h F → live_below h → ctor1_post oracle (create_with_type oracle ty) h F (rd_of_type ty) )
+  ∧
+  (* cJSON_CreateNull_sim *)
+  ( ∀ (oracle : nat → bool) (h : heap) (F : forest),
+      WF h F
+      → live_below h → ctor1_post oracle (cJSON_CreateNull oracle) h F (rd_of_type Constants.c_cJSON_NULL) )
+  ∧
+  (* cJSON_CreateTrue_sim *)
+  ( ∀ (oracle : nat → bool) (h : heap) (F : forest),
+      WF h F
+      → live_below h → ctor1_post oracle (cJSON_CreateTrue oracle) h F (rd_of_type Constants.c_cJSON_True) )
+  ∧
+  (* cJSON_CreateFalse_sim *)
+  ( ∀ (oracle : nat → bool) (h : heap) (F : forest),
+      WF h F
+      → live_below h → ctor1_post oracle (cJSON_CreateFalse oracle) h F (rd_of_type Constants.c_cJSON_False) )
+  ∧
+  (* cJSON_CreateBool_sim *)
+  ( ∀ (oracle : nat → bool) (b : bool) (h : heap) (F : forest),
+      WF h F
+      → live_below h
+        → ctor1_post oracle (cJSON_CreateBool oracle b) h F
+            (rd_of_type (if b then Constants.c_cJSON_True else Constants.c_cJSON_False)) )
+  ∧
+  (* cJSON_CreateArray_sim *)
+  ( ∀ (oracle : nat → bool) (h : heap) (F : forest),
+      WF h F
+      → live_below h → ctor1_post oracle (cJSON_CreateArray oracle) h F (rd_of_type Constants.c_cJSON_Array) )
+  ∧
+  (* cJSON_CreateObject_sim *)
+  ( ∀ (oracle : nat → bool) (h : heap) (F : forest),
+      WF h F
+      → live_below h → ctor1_post oracle (cJSON_CreateObject oracle) h F (rd_of_type Constants.c_cJSON_Object) )
+  ∧
+  (* cJSON_CreateNumber_sim *)
+  ( ∀ (oracle : nat → bool) (num : dbl) (h : heap) (F : forest),
+      WF h F → live_below h → ctor1_post oracle (cJSON_CreateNumber oracle num) h F (rd_number num) )
+  ∧
+  (* cJSON_CreateStringReference_sim *)
+  ( ∀ (oracle : nat → bool) (string : ptr) (h : heap) (F : forest),
+      WF h F
+      → live_below h → ctor1_post oracle (cJSON_CreateStringReference oracle string) h F (rd_string_ref string) )
+  ∧
+  (* cJSON_CreateObjectReference_sim *)
+  ( ∀ (oracle : nat → bool) (child : ptr) (h : heap) (F : forest),
+      WF h F
+      → live_below h
+        → ctor1_post oracle (cJSON_CreateObjectReference oracle child) h F
+            (rd_container_ref Constants.c_cJSON_Object child) )
+  ∧
+  (* cJSON_CreateArrayReference_sim *)
+  ( ∀ (oracle : nat → bool) (child : ptr) (h : heap) (F : forest),
+      WF h F
+      → live_below h
+        → ctor1_post oracle (cJSON_CreateArrayReference oracle child) h F
+            (rd_container_ref Constants.c_cJSON_Array child) ).
+Proof. exact (conj cJSON_strdup_sim (conj create_with_type_sim (conj cJSON_CreateNull_sim (conj cJSON_CreateTrue_sim (conj cJSON_CreateFalse_sim (conj cJSON_CreateBool_sim (conj cJSON_CreateArray_sim (conj cJSON_CreateObject_sim (conj cJSON_CreateNumber_sim (conj cJSON_CreateStringReference_sim (conj cJSON_CreateObjectReference_sim cJSON_CreateArrayReference_sim))))))))))). Qed.
+Print Assumptions C08_constructors.
+
+(* cJSON_CreateString / cJSON_CreateRaw: two requests (node, copy of the text); when the copy is refused the node is
+   released again *)
+Theorem C08_string_constructors :
+  (* cJSON_CreateString_sim *)
+  ( ∀ (oracle : nat → bool) (h : heap) (F : forest) (sb : positive),
+      WF h F
+      → live_below h
+        → Readable h sb
+          → (let id := h_next h in
+             let d := rd_string Constants.c_cJSON_String (Pos.succ id) in
+             let h' := new_string h Constants.c_cJSON_String (str_at h sb ++ [0%Z]) in
+             oracle (h_req h) = false
+             ∧ oracle (S (h_req h)) = false
+               ∧ cJSON_CreateString oracle (Some sb) h = Ret (Some id, h')
+                 ∧ WF h' (spec_create F id d)
+                   ∧ live_below h'
+                     ∧ (NoLeak h F → NoLeak h' (spec_create F id d))
+                       ∧ Readable h' (Pos.succ id) ∧ str_at h' (Pos.succ id) = str_at h sb)
+            ∨ (∃ h' : heap,
+                 cJSON_CreateString oracle (Some sb) h = Ret (None, h')
+                 ∧ clean_failure h h' ∧ refused oracle h h') )
+  ∧
+  (* cJSON_CreateRaw_sim *)
+  ( ∀ (oracle : nat → bool) (h : heap) (F : forest) (sb : positive),
+      WF h F
+      → live_below h
+        → Readable h sb
+          → (let id := h_next h in
+             let d := rd_string Constants.c_cJSON_Raw (Pos.succ id) in
+             let h' := new_string h Constants.c_cJSON_Raw (str_at h sb ++ [0%Z]) in
+             oracle (h_req h) = false
+             ∧ oracle (S (h_req h)) = false
+               ∧ cJSON_CreateRaw oracle (Some sb) h = Ret (Some id, h')
+                 ∧ WF h' (spec_create F id d)
+                   ∧ live_below h'
+                     ∧ (NoLeak h F → NoLeak h' (spec_create F id d))
+                       ∧ Readable h' (Pos.succ id) ∧ str_at h' (Pos.succ id) = str_at h sb)
+            ∨ (∃ h' : heap,
+                 cJSON_CreateRaw oracle (Some sb) h = Ret (None, h') ∧ clean_failure h h' ∧ refused oracle h h') )
+  ∧
+  (* cJSON_CreateString_null *)
+  ( ∀ (oracle : nat → bool) (h : heap) (F : forest),
+      WF h F
+      → live_below h → ∃ h' : heap, cJSON_CreateString oracle None h = Ret (None, h') ∧ clean_failure h h' )
+  ∧
+  (* cJSON_CreateRaw_null *)
+  ( ∀ (oracle : nat → bool) (h : heap) (F : forest),
+      WF h F → live_below h → ∃ h' : heap, cJSON_CreateRaw oracle None h = Ret (None, h') ∧ clean_failure h h' ).
+Proof. exact (conj cJSON_CreateString_sim (conj cJSON_CreateRaw_sim (conj cJSON_CreateString_null cJSON_CreateRaw_null))). Qed.
+Print Assumptions C08_string_constructors.
+
+(* cJSON_SetValuestring: the only exit that allocates (new text longer than the old one): refused => NULL and the OLD
+   string stays in place (seeded change C08_B breaks exactly this); the other exits make no request *)
+Theorem C08_SetValuestring :
+  (* cJSON_SetValuestring_realloc *)
+  ( ∀ (oracle : nat → bool) (h : heap) (F : forest) (x : positive) (d : rdata) (cs : list tree) 
+      (vb sb : positive),
+      WF h F
+      → live_below h
+        → find_tree x F = Some (T x d cs)
+          → has_flag (rd_type d) Constants.c_cJSON_String = true
+            → is_ref d = false
+              → rd_vstr d = Some vb
+                → Readable h sb
+                  → Readable h vb
+                    → length (str_at h vb) < length (str_at h sb)
+                      → (let nb := h_next h in
+                         let d' := rd_set_vstr d (Some nb) in
+                         let F' := set_data x d' F in
+                         let h' := svs_realloc_heap h x vb (mk_dat d' (tid <$> cs)) (str_at h sb ++ [0%Z]) in
+                         oracle (h_req h) = false
+                         ∧ spec_set_valuestring (h_str h) F (Some x) (Some sb) (Some nb) = (F', Some nb)
+                           ∧ cJSON_SetValuestring oracle (Some x) (Some sb) h = Ret (Some nb, h')
+                             ∧ WF h' F'
+                               ∧ live_below h'
+                                 ∧ (NoLeak h F → NoLeak h' F')
+                                   ∧ Readable h' nb ∧ str_at h' nb = str_at h sb ∧ vb ∉ h_live h')
+                        ∨ spec_set_valuestring (h_str h) F (Some x) (Some sb) None = (F, None)
+                          ∧ cJSON_SetValuestring oracle (Some x) (Some sb) h = Ret (None, bump h)
+                            ∧ clean_failure h (bump h) ∧ refused oracle h (bump h) )
+  ∧
+  (* cJSON_SetValuestring_null *)
+  ( ∀ (oracle : nat → bool) (h : heap) (F : forest) (valuestring copy : ptr),
+      spec_set_valuestring (h_str h) F None valuestring copy = (F, None)
+      ∧ cJSON_SetValuestring oracle None valuestring h = Ret (None, h) )
+  ∧
+  (* cJSON_SetValuestring_refused *)
+  ( ∀ (oracle : nat → bool) (h : heap) (F : forest) (x : positive) (d : rdata) (cs : list tree) 
+      (valuestring : option positive) (copy : ptr),
+      WF h F
+      → find_tree x F = Some (T x d cs)
+        → has_flag (rd_type d) Constants.c_cJSON_String = false
+          ∨ is_ref d = true ∨ rd_vstr d = None ∨ valuestring = None
+          → spec_set_valuestring (h_str h) F (Some x) valuestring copy = (F, None)
+            ∧ cJSON_SetValuestring oracle (Some x) valuestring h = Ret (None, h) )
+  ∧
+  (* cJSON_SetValuestring_alias *)
+  ( ∀ (oracle : nat → bool) (h : heap) (F : forest) (x : positive) (d : rdata) (cs : list tree) 
+      (vb : positive) (copy : ptr),
+      WF h F
+      → find_tree x F = Some (T x d cs)
+        → has_flag (rd_type d) Constants.c_cJSON_String = true
+          → is_ref d = false
+            → rd_vstr d = Some vb
+              → Readable h vb
+                → spec_set_valuestring (h_str h) F (Some x) (Some vb) copy = (F, None)
+                  ∧ cJSON_SetValuestring oracle (Some x) (Some vb) h = Ret (None, h) )
+  ∧
+  (* cJSON_SetValuestring_inplace *)
+  ( ∀ (oracle : nat → bool) (h : heap) (F : forest) (x : positive) (d : rdata) (cs : list tree) 
+      (vb sb : positive) (old : bytes) (copy : ptr),
+      WF h F
+      → find_tree x F = Some (T x d cs)
+        → has_flag (rd_type d) Constants.c_cJSON_String = true
+          → is_ref d = false
+            → rd_vstr d = Some vb
+              → Readable h sb
+                → Readable h vb
+                  → sb ≠ vb
+                    → h_str h !! vb = Some old
+                      → length (str_at h sb) ≤ length (str_at h vb)
+                        → let new := str_at h sb ++ 0%Z :: drop (S (length (str_at h sb))) old in
+                          let h' := set_str h (<[vb:=new]> (h_str h)) in
+                          spec_set_valuestring (h_str h) F (Some x) (Some sb) copy = (F, Some vb)
+                          ∧ cJSON_SetValuestring oracle (Some x) (Some sb) h = Ret (Some vb, h')
+                            ∧ WF h' F
+                              ∧ (NoLeak h F → NoLeak h' F)
+                                ∧ live_below h' = live_below h
+                                  ∧ Readable h' vb ∧ str_at h' vb = str_at h sb ∧ length new = length old ).
+Proof. exact (conj cJSON_SetValuestring_realloc (conj cJSON_SetValuestring_null (conj cJSON_SetValuestring_refused (conj cJSON_SetValuestring_alias cJSON_SetValuestring_inplace)))). Qed.
+Print Assumptions C08_SetValuestring.
+
+(* references: create_reference, cJSON_AddItemReferenceToArray (one request), cJSON_AddItemReferenceToObject (two
+   requests; when the copy of the name is refused the reference node is deleted again — finding F6 on the pinned tree) *)
+Theorem C08_references :
+  (* create_reference_sim *)
+  ( ∀ (oracle : nat → bool) (h : heap) (F : forest) (y : positive) (d : rdata) (ks : list positive),
+      WF h F
+      → live_below h
+        → (y, d, ks) ∈ flat F → ctor1_post oracle (create_reference oracle (Some y)) h F (rd_reference d ks) )
+  ∧
+  (* cJSON_AddItemReferenceToArray_sim *)
+  ( ∀ (oracle : nat → bool) (h : heap) (F : forest) (p : positive) (dp : rdata) (cs : list tree) 
+      (y : positive) (d : rdata) (csy : list tree),
+      WF h F
+      → live_below h
+        → find_tree p F = Some (T p dp cs)
+          → is_ref dp = false
+            → find_tree y F = Some (T y d csy)
+              → (let r := h_next h in
+                 let tr := T r (rd_reference d (tid <$> csy)) [] in
+                 let F' := set_children p (cs ++ [tr]) F in
+                 let h1 := new_node h (rd_reference d (tid <$> csy)) in
+                 let h' := upd_maps h1 (heap_lnk_of F') (heap_dat_of F') in
+                 oracle (h_req h) = false
+                 ∧ spec_add_reference_to_array F (Some p) (Some y) (Some r) = (F', true)
+                   ∧ cJSON_AddItemReferenceToArray oracle (Some p) (Some y) h = Ret (true, h')
+                     ∧ WF h' F' ∧ live_below h' ∧ (NoLeak h F → NoLeak h' F'))
+                ∨ spec_add_reference_to_array F (Some p) (Some y) None = (F, false)
+                  ∧ cJSON_AddItemReferenceToArray oracle (Some p) (Some y) h = Ret (false, bump h)
+                    ∧ clean_failure h (bump h) ∧ refused oracle h (bump h) )
+  ∧
+  (* cJSON_AddItemReferenceToObject_sim *)
+  ( ∀ (oracle : nat → bool) (h : heap) (F : forest) (p : positive) (dp : rdata) (csp : list tree) 
+      (y : positive) (d : rdata) (csy : list tree) (sb : positive) (s : bytes),
+      WF h F
+      → live_below h
+        → find_tree p F = Some (T p dp csp)
+          → is_ref dp = false
+            → find_tree y F = Some (T y d csy)
+              → Readable h sb
+                → h_str h !! sb = Some s
+                  → (let r := h_next h in
+                     let nk := Pos.succ r in
+                     let dr := rd_owned_key (rd_reference d (tid <$> csy)) nk in
+                     let F' := set_children p (csp ++ [T r dr []]) F in
+                     let h2 := alloc_str (new_node h (rd_reference d (tid <$> csy))) (cstr s ++ [0%Z]) in
+                     let h' := upd_maps h2 (heap_lnk_of F') (heap_dat_of F') in
+                     oracle (h_req h) = false
+                     ∧ oracle (S (h_req h)) = false
+                       ∧ spec_add_reference_to_object F (Some p) (Some sb) (Some y) (Some r) (Some nk) =
+                         (F', true)
+                         ∧ cJSON_AddItemReferenceToObject oracle (Some p) (Some sb) (Some y) h = Ret (true, h')
+                           ∧ WF h' F' ∧ live_below h' ∧ (NoLeak h F → NoLeak h' F'))
+                    ∨ (∃ (h' : heap) (fresh : ptr),
+                         spec_add_reference_to_object F (Some p) (Some sb) (Some y) fresh None = (F, false)
+                         ∧ cJSON_AddItemReferenceToObject oracle (Some p) (Some sb) (Some y) h = Ret (false, h')
+                           ∧ clean_failure h h' ∧ refused oracle h h') ).
+Proof. exact (conj create_reference_sim (conj cJSON_AddItemReferenceToArray_sim cJSON_AddItemReferenceToObject_sim)). Qed.
+Print Assumptions C08_references.
+
+(* bulk constructors:  array_result oracle m h F Q count  :=
+        (exists leaves Hc, m h = Ret (Some (h_next h), Hc) /\ WF Hc (F ++ [T (h_next h) arr leaves]) /\ length leaves = Z.to_nat count /\
+           (every leaf is a childless node whose data satisfies Q) /\ Ext h Hc (blocks of the array) /\ live_below Hc /\ NoLeak preserved)
+     \/ (exists h', m h = Ret (None, h') /\ clean_failure h h' /\ refused oracle h h')
+   — ANY refused request => the partial array is deleted *)
+Theorem C08_bulk_constructors :
+  (* cJSON_CreateIntArray_sim *)
+  ( ∀ (oracle : nat → bool) (h : heap) (F : forest),
+      WF h F
+      → live_below h
+        → ∀ (l : list Z) (count : Z),
+            (0 ≤ count)%Z
+            → Z.to_nat count ≤ length l
+              → array_result oracle (cJSON_CreateIntArray oracle (Some l) count) h F
+                  (number_leaf (dbl_of_int <$> l)) count )
+  ∧
+  (* cJSON_CreateFloatArray_sim *)
+  ( ∀ (oracle : nat → bool) (h : heap) (F : forest),
+      WF h F
+      → live_below h
+        → ∀ (l : list dbl) (count : Z),
+            (0 ≤ count)%Z
+            → Z.to_nat count ≤ length l
+              → array_result oracle (cJSON_CreateFloatArray oracle (Some l) count) h F (number_leaf l) count )
+  ∧
+  (* cJSON_CreateDoubleArray_sim *)
+  ( ∀ (oracle : nat → bool) (h : heap) (F : forest),
+      WF h F
+      → live_below h
+        → ∀ (l : list dbl) (count : Z),
+            (0 ≤ count)%Z
+            → Z.to_nat count ≤ length l
+              → array_result oracle (cJSON_CreateDoubleArray oracle (Some l) count) h F (number_leaf l) count )
+  ∧
+  (* cJSON_CreateStringArray_sim *)
+  ( ∀ (oracle : nat → bool) (h : heap) (F : forest),
+      WF h F
+      → live_below h
+        → ∀ (l : list ptr) (count : Z),
+            (0 ≤ count)%Z
+            → Z.to_nat count ≤ length l
+              → (∀ (k : nat) (q : ptr),
+                   k < Z.to_nat count → l !! k = Some q → ∃ sb : positive, q = Some sb ∧ Readable h sb)
+                → array_result oracle (cJSON_CreateStringArray oracle (Some l) count) h F 
+                    (strings_leaf h l) count ).
+Proof. exact (conj cJSON_CreateIntArray_sim (conj cJSON_CreateFloatArray_sim (conj cJSON_CreateDoubleArray_sim cJSON_CreateStringArray_sim))). Qed.
+Print Assumptions C08_bulk_constructors.
+
+(* cJSON_Duplicate (recursive) of a subtree of the forest: NULL => link, data, string maps, live set, hooks and the
+   ledger of library blocks are as before and some request was refused ([ofail]); otherwise a copy, next to everything
+   that was there.  Deeper than CJSON_CIRCULAR_LIMIT: NULL, heap as before.  (C11 has the full set.) *)
+Theorem C08_Duplicate :
+  (* dup_copy *)
+  ( ∀ (oracle : nat → bool) (h : heap) (F : forest) (p : positive) (t : tree),
+      WF h F
+      → Closed h
+        → find_tree p F = Some t
+          → strs_readable h t
+            → no_borrowed t
+              → height t ≤ Z.to_nat Constants.c_CJSON_CIRCULAR_LIMIT
+                → ∃ (r : ptr) (h' : heap),
+                    cJSON_Duplicate oracle (Some p) true h = Ret (r, h')
+                    ∧ (r = None
+                       ∧ WF h' F
+                         ∧ (NoLeak h F → NoLeak h' F)
+                           ∧ h_lnk h' = h_lnk h
+                             ∧ h_dat h' = h_dat h
+                               ∧ h_str h' = h_str h
+                                 ∧ h_live h' = h_live h
+                                   ∧ h_hooks h' = h_hooks h
+                                     ∧ lib_live h' = lib_live h ∧ Closed h' ∧ ofail oracle h h'
+                       ∨ (∃ tc : tree,
+                            r = Some (tid tc)
+                            ∧ WF h' (F ++ [tc])
+                              ∧ (NoLeak h F → NoLeak h' (F ++ [tc]))
+                                ∧ copy_of h' t tc
+                                  ∧ Ext (nids (flat_t tc)) (sids (flat_t tc)) h h'
+                                    ∧ h_lnk h' !! tid tc = Some (None, None)
+                                      ∧ (∀ b : positive, b ∈ owned F → b ∉ owned [tc])
+                                        ∧ (∀ b : positive,
+                                             b ∈ owned [tc] → (h_next h ≤ b)%positive ∧ b ∉ h_live h)
+                                          ∧ oclean oracle h h')) )
+  ∧
+  (* dup_too_deep *)
+  ( ∀ (oracle : nat → bool) (h : heap) (F : forest) (p : positive) (t : tree),
+      WF h F
+      → Closed h
+        → refs_in F
+          → all_readable h F
+            → find_tree p F = Some t
+              → Z.to_nat Constants.c_CJSON_CIRCULAR_LIMIT < height t
+                → ∃ h' : heap,
+                    cJSON_Duplicate oracle (Some p) true h = Ret (None, h')
+                    ∧ WF h' F
+                      ∧ (NoLeak h F → NoLeak h' F)
+                        ∧ h_lnk h' = h_lnk h
+                          ∧ h_dat h' = h_dat h
+                            ∧ h_str h' = h_str h
+                              ∧ h_live h' = h_live h
+                                ∧ h_hooks h' = h_hooks h ∧ lib_live h' = lib_live h ∧ Closed h' )
+  ∧
+  (* cJSON_Duplicate_null *)
+  ( ∀ (oracle : nat → bool) (recurse : bool) (h : heap), cJSON_Duplicate oracle None recurse h = Ret (None, h) ).
+Proof. exact (conj dup_copy (conj dup_too_deep cJSON_Duplicate_null)). Qed.
+Print Assumptions C08_Duplicate.
+
+(* cJSON_AddItemToObject / cJSON_AddItemToObjectCS (add_item_to_object) and cJSON_ReplaceItemInObject[CaseSensitive]
+   (replace_item_in_object): one request (the copy of the name).  These are stated as one lemma per branch: granted
+   ([_owned], [_sim]) and refused ([_nomem]: false, the heap is [bump h] — only the request counter moved — and still
+   encodes F).  Constant keys ([_const]) make no request. *)
+Theorem C08_object_keys :
+  (* add_item_to_object_sim_owned *)
+  ( ∀ (oracle : nat → bool) (h : heap) (F : forest) (p x sb : positive) (d dp : rdata) (cs csp : list tree),
+      WF h F
+      → p ≠ x
+        → find_root x F = Some (T x d cs)
+          → find_tree p (remove_root x F) = Some (T p dp csp)
+            → is_ref dp = false
+              → ∀ s : bytes,
+                  CoreRefineObject.Readable h sb
+                  → h_str h !! sb = Some s
+                    → oracle (h_req h) = false
+                      → let nk := h_next h in
+                        let d' := rd_owned_key d nk in
+                        let F' := set_children p (csp ++ [T x d' cs]) (remove_root x F) in
+                        let hb := free_all (old_key d) (alloc_str h (cstr s ++ [0%Z])) in
+                        spec_add_to_object F (Some p) (Some sb) (Some x) false (Some nk) = (F', true)
+                        ∧ add_item_to_object oracle (Some p) (Some sb) (Some x) false h =
+                          Ret (true, upd_maps hb (heap_lnk_of F') (heap_dat_of F'))
+                          ∧ WF (upd_maps hb (heap_lnk_of F') (heap_dat_of F')) F' )
+  ∧
+  (* add_item_to_object_sim_nomem *)
+  ( ∀ (oracle : nat → bool) (h : heap) (F : forest) (p x sb : positive) (d : rdata) (cs : list tree),
+      WF h F
+      → p ≠ x
+        → find_root x F = Some (T x d cs)
+          → ∀ s : bytes,
+              CoreRefineObject.Readable h sb
+              → h_str h !! sb = Some s
+                → oracle (h_req h) = true
+                  → spec_add_to_object F (Some p) (Some sb) (Some x) false None = (F, false)
+                    ∧ add_item_to_object oracle (Some p) (Some sb) (Some x) false h = Ret (false, bump h)
+                      ∧ WF (bump h) F )
+  ∧
+  (* add_item_to_object_sim_const *)
+  ( ∀ (oracle : nat → bool) (h : heap) (F : forest) (p x sb : positive) (d dp : rdata) (cs csp : list tree),
+      WF h F
+      → p ≠ x
+        → find_root x F = Some (T x d cs)
+          → find_tree p (remove_root x F) = Some (T p dp csp)
+            → is_ref dp = false
+              → let d' := rd_const_key d sb in
+                let F' := set_children p (csp ++ [T x d' cs]) (remove_root x F) in
+                let hb := free_all (old_key d) h in
+                spec_add_to_object F (Some p) (Some sb) (Some x) true None = (F', true)
+                ∧ add_item_to_object oracle (Some p) (Some sb) (Some x) true h =
+                  Ret (true, upd_maps hb (heap_lnk_of F') (heap_dat_of F'))
+                  ∧ WF (upd_maps hb (heap_lnk_of F') (heap_dat_of F')) F' )
+  ∧
+  (* replace_item_in_object_sim *)
+  ( ∀ (oracle : nat → bool) (h : heap) (F : forest) (p r sb : positive) (d dp : rdata) 
+      (cs csp : list tree) (s : bytes),
+      WF h F
+      → KeysReadable h F
+        → (∀ (e : fnode) (b : positive),
+             e ∈ flat F → rd_key (fn_data e) = Some b → is_const (fn_data e) = true → b ∉ owned F)
+          → (∀ (e : fnode) (b : positive), e ∈ flat F → rd_key (fn_data e) = Some b → (b < h_next h)%positive)
+            → find_root r F = Some (T r d cs)
+              → find_tree p (remove_root r F) = Some (T p dp csp)
+                → is_ref dp = false
+                  → CoreRefineObject.Readable h sb
+                    → h_str h !! sb = Some s
+                      → ∀ case_sensitive : bool,
+                          oracle (h_req h) = false
+                          → let it :=
+                              spec_get_key
+                                (h_str
+                                   (set_dat (free_all (old_key d) (alloc_str h (cstr s ++ [0%Z])))
+                                      (<[r:=mk_dat (rd_owned_key d (h_next h)) (tid <$> cs)]>
+                                         (h_dat (free_all (old_key d) (alloc_str h (cstr s ++ [0%Z])))))))
+                                (set_data r (rd_owned_key d (h_next h)) F) (Some p) 
+                                (Some (h_next h)) case_sensitive in
+                            spec_replace_key
+                              (h_str
+                                 (set_dat (free_all (old_key d) (alloc_str h (cstr s ++ [0%Z])))
+                                    (<[r:=mk_dat (rd_owned_key d (h_next h)) (tid <$> cs)]>
+                                       (h_dat (free_all (old_key d) (alloc_str h (cstr s ++ [0%Z]))))))) F
+                              (Some p) (Some sb) (Some r) case_sensitive (Some (h_next h)) =
+                            spec_replace (set_data r (rd_owned_key d (h_next h)) F) (Some p) it (Some r)
+                            ∧ (∃ h' : heap,
+                                 replace_item_in_object oracle (Some p) (Some sb) (Some r) case_sensitive h =
+                                 Ret
+                                   ((spec_replace (set_data r (rd_owned_key d (h_next h)) F) 
+                                       (Some p) it (Some r)).2, h')
+                                 ∧ WF h'
+                                     (spec_replace (set_data r (rd_owned_key d (h_next h)) F) 
+                                        (Some p) it (Some r)).1) )
+  ∧
+  (* replace_item_in_object_nomem *)
+  ( ∀ (oracle : nat → bool) (h : heap) (F : forest) (p r sb : positive) (s : bytes),
+      WF h F
+      → CoreRefineObject.Readable h sb
+        → h_str h !! sb = Some s
+          → ∀ case_sensitive : bool,
+              oracle (h_req h) = true
+              → spec_replace_key (h_str h) F (Some p) (Some sb) (Some r) case_sensitive None = (F, false)
+                ∧ replace_item_in_object oracle (Some p) (Some sb) (Some r) case_sensitive h =
+                  Ret (false, bump h) ∧ WF (bump h) F ).
+Proof. exact (conj add_item_to_object_sim_owned (conj add_item_to_object_sim_nomem (conj add_item_to_object_sim_const (conj replace_item_in_object_sim replace_item_in_object_nomem)))). Qed.
+Print Assumptions C08_object_keys.
+
+(* non-vacuity of the tree-API statements (CoreRefineCreateEx.v): the hypotheses hold on concrete heaps built from
+   [empty_heap]; both branches occur *)
+Theorem C08_tree_api_nonvacuous :
+  (* ex_create_string_any_oracle *)
+  ( ∀ oracle : nat → bool,
+      oracle 0 = false
+      ∧ oracle 1 = false
+        ∧ cJSON_CreateString oracle (Some 1%positive) h1 =
+          Ret (Some 3%positive, new_string h1 Constants.c_cJSON_String [104%Z; 105%Z; 0%Z])
+          ∧ WF (new_string h1 Constants.c_cJSON_String [104%Z; 105%Z; 0%Z])
+              [T 3 (rd_string Constants.c_cJSON_String 4) []]
+      ∨ (∃ h' : heap,
+           cJSON_CreateString oracle (Some 1%positive) h1 = Ret (None, h')
+           ∧ clean_failure h1 h' ∧ refused oracle h1 h') )
+  ∧
+  (* ex_setvs_any_oracle *)
+  ( ∀ oracle : nat → bool,
+      (∃ h' : heap,
+         cJSON_SetValuestring oracle (Some 3%positive) (Some 2%positive) h2 = Ret (Some 5%positive, h')
+         ∧ WF h' (set_data 3 (rd_string Constants.c_cJSON_String 5) F2)
+           ∧ str_at h' 5 = str_at h2 2 ∧ 4%positive ∉ h_live h')
+      ∨ cJSON_SetValuestring oracle (Some 3%positive) (Some 2%positive) h2 = Ret (None, bump h2)
+        ∧ clean_failure h2 (bump h2) ∧ refused oracle h2 (bump h2) )
+  ∧
+  (* ex_intarray_any_oracle *)
+  ( ∀ oracle : nat → bool,
+      array_result oracle (cJSON_CreateIntArray oracle (Some [1%Z; 2%Z; 3%Z]) 3) empty_heap []
+        (number_leaf (dbl_of_int <$> [1%Z; 2%Z; 3%Z])) 3 )
+  ∧
+  (* ex_setvs_refused *)
+  ( let m := cJSON_SetValuestring always (Some 3%positive) (Some 2%positive) in
+    let h3 := heap_after m h2 in
+    result_of m h2 = Some None
+    ∧ result_of (cJSON_GetStringValue (Some 3%positive)) h3 = Some (Some 4%positive)
+      ∧ str_at h3 4 = [104%Z; 105%Z]
+        ∧ elements (h_live h3) = elements (h_live h2)
+          ∧ map_to_list (h_lnk h3) = map_to_list (h_lnk h2)
+            ∧ map_to_list (h_dat h3) = map_to_list (h_dat h2) ∧ map_to_list (h_str h3) = map_to_list (h_str h2) )
+  ∧
+  (* ex_setvs_granted *)
+  ( let m := cJSON_SetValuestring never (Some 3%positive) (Some 2%positive) in
+    let h3 := heap_after m h2 in
+    result_of m h2 = Some (Some 5%positive)
+    ∧ result_of (cJSON_GetStringValue (Some 3%positive)) h3 = Some (Some 5%positive)
+      ∧ str_at h3 5 = [104%Z; 101%Z; 108%Z; 108%Z; 111%Z]
+        ∧ elements (h_live h3) = [1%positive; 2%positive; 3%positive; 5%positive] )
+  ∧
+  (* ex_intarray_refused_clean *)
+  ( ∃ h' : heap,
+      cJSON_CreateIntArray third (Some [1%Z; 2%Z; 3%Z]) 3 empty_heap = Ret (None, h')
+      ∧ clean_failure empty_heap h' )
+  ∧
+  (* ex_intarray_granted *)
+  ( let m := cJSON_CreateIntArray never (Some [1%Z; 2%Z; 3%Z]) 3 in
+    let h' := heap_after m empty_heap in
+    result_of m empty_heap = Some (Some 1%positive)
+    ∧ map_to_list (h_lnk h') =
+      map_to_list
+        (heap_lnk_of
+           [T 1 arr
+              [T 2 (rd_number (dbl_of_int 1)) []; T 3 (rd_number (dbl_of_int 2)) [];
+               T 4 (rd_number (dbl_of_int 3)) []]])
+      ∧ map_to_list (h_dat h') =
+        map_to_list
+          (heap_dat_of
+             [T 1 arr
+                [T 2 (rd_number (dbl_of_int 1)) []; T 3 (rd_number (dbl_of_int 2)) [];
+                 T 4 (rd_number (dbl_of_int 3)) []]]) ).
+Proof. exact (conj ex_create_string_any_oracle (conj ex_setvs_any_oracle (conj ex_intarray_any_oracle (conj ex_setvs_refused (conj ex_setvs_granted (conj ex_intarray_refused_clean ex_intarray_granted)))))). Qed.
+Print Assumptions C08_tree_api_nonvacuous.
